@@ -66,10 +66,12 @@ VARIANTS = {
     5: (("perm", "rename", "dup"), 12345, 3),
     6: ((), 777, 4),
     7: (("perm",), 4242, 5),
+    8: ((), 2, 6),
+    9: (("perm",), 3, 7),
 }
 for _k, _v in list(VARIANTS.items()):
     VARIANTS[_k] = _v[0]
-VARIANT_ENV = {0: (0, 1), 1: (0, 1), 2: (0, 1), 3: (0, 1), 4: (1, 2), 5: (12345, 3), 6: (777, 4), 7: (4242, 5)}
+VARIANT_ENV = {0: (0, 1), 1: (0, 1), 2: (0, 1), 3: (0, 1), 4: (1, 2), 5: (12345, 3), 6: (777, 4), 7: (4242, 5), 8: (2, 6), 9: (3, 7)}
 
 
 def learn(items):
